@@ -420,7 +420,7 @@ def to_gfa2_doc(r, doc):
             e = m_link_to_edge(rec.pos, slen) if rec.rt == "L" else m_cont_to_edge(rec.pos, slen)
             idt = rec.tag("ID")
             n += 1
-            eid = idt[1] if idt else ("*" if gen.chance(r, 0.4) else "x%d" % n)
+            eid = idt[1] if idt else ("*" if gen.chance(r, 0.4) and not doc.get("force_edges_only") else "x%d" % n)
             bw = M.both_whole(G.Rec("E", ["*"] + e, [], "gfa2"))
             if gen.chance(r, 0.5) and not bw:
                 # the other role arrangement: sides swapped, alignment complemented
@@ -450,6 +450,7 @@ def to_gfa2_doc(r, doc):
         a, b = segs[0], segs[-1]
         internal = ["E", ["*", a + "+", b + "+", "1", "2", "1", "2", "1M"], []]
     # paths: only over named edges
+    ambiguous = []
     for l in doc["lines"]:
         if l[0] != "P":
             continue
@@ -479,26 +480,37 @@ def to_gfa2_doc(r, doc):
             # elide the edges (gfapy supplies them when exactly one fits; gfapy's rule is
             # lenient about directions, so only when a single edge joins the two segments)
             items = [x for i, x in enumerate(items) if i % 2 == 0]
+        elif (gen.chance(r, 0.25) or doc.get("force_edges_only")) and len(steps) >= 2:
+            # the path given by its edges only (every segment is supplied).  When two edges join the same two
+            # segments the list may be read in more than one way: then only a valid result (or a refusal) is demanded
+            items = [x for i, x in enumerate(items) if i % 2 == 1]
+            if not unamb or any(x.endswith("-") for x in items):
+                ambiguous.append(rec.pos[0])
         lines.append(["O", [rec.pos[0], " ".join(items)], [list(t) for t in rec.tags]])
         expect.append(("P", rec.pos[0], tuple(segl), canon_steps(segl, steps), strip_tags(rec.tags, set())))
     lines += extras
-    return {"version": "gfa2", "lines": lines, "slen": slen}, expect, internal
+    return {"version": "gfa2", "lines": lines, "slen": slen, "ambiguous_paths": ambiguous}, expect, internal
 
 
 def prop_gfa2(case):
     doc2, expect, internal = case["doc"], case["expect"], case.get("internal")
     lines = gen.doc_lines(doc2)
+    amb = set(doc2.get("ambiguous_paths") or [])
     want = Counter(_tuplify(e) for e in expect)
+    if amb:
+        want = Counter({k: v for k, v in want.items() if not (k[0] == "P" and k[1] in amb)})
     for how in ("to_gfa1_s", "to_gfa1"):
         try:
             g = gfapy.Gfa(lines, version="gfa2", vlevel=1)
             text = g.to_gfa1_s() if how == "to_gfa1_s" else str(g.to_gfa1())
         except GfapyError as e:
+            if amb:
+                continue  # an item list that can be read in more than one way may be refused
             raise Violation("conversion-refused", "%s raised %s: %s\n%s" % (how, type(e).__name__, str(e)[:300], "\n".join(lines)), type(e).__name__)
         except Exception as e:
             raise Violation("conversion-foreign", "%s raised %s: %s\n%s" % (how, type(e).__name__, str(e)[:300], "\n".join(lines)), type(e).__name__)
         recs = parse_out(text, "gfa1", how + " output")
-        got = canon_gfa1_for_roundtrip([x for x in recs if x.rt != "#"])
+        got = canon_gfa1_for_roundtrip([x for x in recs if x.rt != "#" and not (x.rt == "P" and x.pos[0] in amb)])
         if got != want:
             raise Violation("gfa2-to-gfa1", "%s result differs from the model: %s\n-- source --\n%s\n-- result --\n%s" % (
                 how, G.counter_diff(want, got), "\n".join(lines), text))
@@ -531,7 +543,7 @@ def prop_gfa2(case):
 def _convert_after_edit(case, lines):
     """A Gfa that has been converted once and is then edited (an edge taken out and put back
     with another alignment) converts like a Gfa parsed afresh from its current text."""
-    if not case.get("edit"):
+    if not case.get("edit") or case["doc"].get("ambiguous_paths"):
         return
     try:
         g = gfapy.Gfa(lines, version="gfa2", vlevel=1)
@@ -652,10 +664,25 @@ def st_gfa1_only_ops(draw):
     return {"doc": doc, "vlevel": gen.choice(r, [0, 0, 1, 2, 3]), "affected": affected}
 
 
+def build_two_cycle(r):
+    """Two segments joined by two links in a cycle (a -> b and b -> a) and a path once around (or once and a
+    half): given by its edges only, the O line leaves the direction of the first edge to be worked out."""
+    la, lb = r.randint(6, 12), r.randint(6, 12)
+    oa, ob = gen.choice(r, "+-"), gen.choice(r, "+-")
+    ov1, ov2 = "%dM" % r.randint(1, 4), gen.choice(r, ["%dM" % r.randint(1, 4), "2M1I1M", "1M1D2M"])
+    lines = [["S", ["a", "*"], [["LN", "i", str(la)]]], ["S", ["b", "*"], [["LN", "i", str(lb)]]],
+             ["L", ["a", oa, "b", ob, ov1], []], ["L", ["b", ob, "a", oa, ov2], []]]
+    if gen.chance(r, 0.5):
+        lines.append(["P", ["pc", "a%s,b%s" % (oa, ob), "%s,%s" % (ov1, ov2)], []])  # circular
+    else:
+        lines.append(["P", ["pc", "a%s,b%s,a%s,b%s" % (oa, ob, oa, ob), "%s,%s,%s" % (ov1, ov2, ov1)], []])
+    return {"version": "gfa1", "lines": lines, "slen": {"a": la, "b": lb}, "force_edges_only": True}
+
+
 @st.composite
 def st_gfa2(draw):
     r = draw(st.randoms(use_true_random=False))
-    doc = build_conv_gfa1(r)
+    doc = build_two_cycle(r) if gen.fair(r, 0.08) else build_conv_gfa1(r)
     doc2, expect, internal = to_gfa2_doc(r, doc)
     reorder(r, doc2)
     ops = set()
